@@ -149,6 +149,12 @@ qrnzcnt(int_t neqns, int_t adjlen, int_t *xadj, int_t *adjncy, int_t *zfdperm,
     int_t  nsuper;    /* total number of fundamental supernodes in Lc */
     int_t  nhnz;
     
+    if ( neqns == 0 ) { /* no column: nothing to count, and no entry of
+			   part_super_ata[] / part_super_h[] to write */
+	*nlnz = 0;
+	return 0;
+    }
+
     set    = intMalloc(neqns);
     prvlf  = intMalloc(neqns);
     level  = intMalloc(neqns + 1);    /* length n+1 */
